@@ -147,3 +147,22 @@ extern "C" void harness_call_chain()  /* vf: bounds=call_chain_depth_1..3_above_
     std::string e = "w" + std::to_string(depth) + "()";
     verdicts(cx, wf, e, tf, e);
 }
+
+// a write through a non-constant reference parameter, wherever that parameter stands in the list and whatever the other arguments are
+extern "C" void harness_reference_position()  /* vf: bounds=writer_with_1..3_parameters,the_reference_parameter_in_any_position,other_arguments(literal,constant,arithmetic,inline-if)_x_target(global,array_element,struct_field)_x_19_contexts;twin_takes_the_reference_const reach=end */
+{
+    int cx = vf_pick("!context", NCX), n = vf_range("!parameters", 1, 3), rp = vf_pick("!reference_position", 3), other = vf_pick("!other_arguments", 4), tgt = vf_pick("!target", 3);
+    vf_assume(rp < n && cx != CX_REFARG);
+    static const char* OTHER[] = {"1", "K", "K + 1", "(K > 1 ? 2 : 3)"};
+    static const char* TGT[] = {"g", "arr[1]", "rec.f"};
+    std::string params, cparams, args, cargs;   // the twin gets a constant where the writer gets its target: some contexts demand compile-time values
+    for (int i = 0; i < n; i++) {
+        std::string pn = "p" + std::to_string(i);
+        params += (i ? ", " : "") + (i == rp ? "int& " + pn : "int " + pn);
+        cparams += (i ? ", " : "") + (i == rp ? "const int& " + pn : "int " + pn);
+        args += (i ? ", " : "") + std::string(i == rp ? TGT[tgt] : OTHER[other]);
+        cargs += (i ? ", " : "") + std::string(i == rp ? "K" : OTHER[other]);
+    }
+    std::string body = " p" + std::to_string(rp) + " = 1; return 2; }\n", cbody = " int l; l = p" + std::to_string(rp) + "; return 2; }\n";
+    verdicts(cx, "int wr(" + params + ") {" + body, "wr(" + args + ")", "int wr(" + cparams + ") {" + cbody, "wr(" + cargs + ")");
+}
